@@ -66,6 +66,7 @@ type summary struct {
 	Compilations          int            `json:"compilations"`
 	Retargeted            int            `json:"retargeted_values"`
 	HostOrderCompilations int            `json:"host_order_compilations"`
+	WholeTable            int            `json:"whole_table_compilations"`
 	Accepted              int            `json:"accepted"`
 	Rejected              int            `json:"rejected"`
 	Events                int            `json:"events"`
@@ -747,7 +748,13 @@ func main() {
 					c.SetParseOps(rng)
 				}
 			}
-			runCase(&h, idx, &cs, c, rng, *expand, true)
+			// the whole syscall table (C01): every second concretisation of a policy with a group that lists all abstract syscalls
+			// lets that group list the rest of the real table as well
+			if k%2 == 1 && !cs.Reject && polcase.HasWholeList(&cs.Pol, h.NSys) {
+				c.SetPadTable()
+				sum.WholeTable++
+			}
+			runCase(&h, idx, &cs, c, rng, *expand, len(c.Pad) == 0)
 			// once per x86 case: the same policy compiled for the x32 description of the architecture (Compile!DecideX32Target)
 			if k == 0 && cs.Pol.X86 && (cs.Reject || len(cs.IdealX32) == len(h.Events)) {
 				cx := *c
